@@ -52,7 +52,11 @@ type cliCase struct {
 	Policy int        `json:"ignore_identical"` // value of --ignore-identical given to every command
 	Layout cli.Layout `json:"layout"`           // presentation of the FASTA files the harness writes
 	Stale  bool       `json:"stale,omitempty"`  // map/log output files exist beforehand with longer stale content
-	Cmds   []cliCmd   `json:"cmds"`
+	// Unaligned: the rows have different lengths and every command gets --unaligned (sequence sets)
+	Unaligned bool `json:"unaligned,omitempty"`
+	// Stdin: inputs that may come from standard input do (the alignment without -i; the name file of subset as "-f -")
+	Stdin bool     `json:"stdin,omitempty"`
+	Cmds  []cliCmd `json:"cmds"`
 }
 
 // names that FASTA can carry unchanged (no leading/trailing blank, no tab) including the special
@@ -66,10 +70,16 @@ const cliChars = "ACGTACGTN--"
 
 var cliRx = []rxRule{{`^s`, "t"}, {`\d+`, "N"}, {`(.)$`, "$1$1"}, {`_`, ""}, {`.*`, "same"}, {`^`, "p_"}, {`(`, "x"}, {`Seq(\d+)`, "New$1"}, {`_0001$`, ""}, {`[ab]`, "x"}}
 
-var cliCmds = []string{"rename-map", "rename-map", "rename-regexp", "rename-clean", "addid", "sort", "trim-name", "trim-auto", "subset", "subset", "dedup", "clean-seqs", "append", "append", "concat"}
+var cliCmds = []string{"rename-map", "rename-map", "rename-regexp", "rename-clean", "addid", "sort", "trim-name", "trim-auto", "subset", "subset", "dedup", "clean-seqs", "append", "append", "concat", "identical"}
+
+// commands that accept --unaligned (sequence sets); the others need an alignment
+var cliUnaligned = map[string]bool{"rename-map": true, "rename-regexp": true, "rename-clean": true, "addid": true, "sort": true,
+	"trim-name": true, "trim-auto": true, "subset": true, "dedup": true}
 
 func genCLI(t *rapid.T) cliCase {
 	var c cliCase
+	c.Unaligned = rapid.IntRange(0, 3).Draw(t, "unaligned") == 0
+	c.Stdin = rapid.IntRange(0, 3).Draw(t, "stdin") == 0
 	n := rapid.IntRange(1, 6).Draw(t, "rows")
 	l := rapid.SampledFrom([]int{1, 2, 3, 5, 8, 12, 81}).Draw(t, "L")
 	dupNames := rapid.IntRange(0, 3).Draw(t, "dupnames") == 0
@@ -82,7 +92,11 @@ func genCLI(t *rapid.T) cliCase {
 				}
 			}
 		}
-		seq := gen.SeqN(t, cliChars, l)
+		li := l
+		if c.Unaligned {
+			li = rapid.IntRange(1, 12).Draw(t, "Li")
+		}
+		seq := gen.SeqN(t, cliChars, li)
 		if i > 0 && rapid.IntRange(0, 3).Draw(t, "repeat") == 0 {
 			seq = c.Rows[rapid.IntRange(0, i-1).Draw(t, "of")].Seq
 		}
@@ -136,7 +150,10 @@ func drawCLICmd(t *rapid.T) cliCmd {
 		o.B = []bool{b("nasgap"), b("log")}
 	case "clean-seqs":
 		o.N = []int{in(0, len(cutoffQuarters)-1, "cutoff")}
-		o.B = []bool{b("ignoren")}
+		o.B = []bool{b("ignoren"), b("ignorecase")}
+		o.S = []string{rapid.SampledFrom([]string{"", "", "GAP", "-", "N", "A", "a", "t"}).Draw(t, "char")}
+	case "identical":
+		o.N = []int{in(0, 4, "mode"), in(0, 7, "row"), in(0, 11, "site")}
 	case "append", "concat":
 		k := in(1, 3, "k")
 		l := in(1, 6, "len")
@@ -151,8 +168,11 @@ func drawCLICmd(t *rapid.T) cliCmd {
 
 // readModel is what reading a FASTA file means: every record is inserted in order under the policy
 // of --ignore-identical; no record, a record without name or without residues is an error
-func readModel(rows []row, policy int) (*model, bool) {
-	m := &model{alphabet: align.NUCLEOTIDS, policy: policy}
+func readModel(rows []row, policy int) (*model, bool) { return readModelKind(rows, policy, false) }
+
+// readModelKind: bag = the file is read as a set of unaligned sequences (--unaligned): no length rule
+func readModelKind(rows []row, policy int, bag bool) (*model, bool) {
+	m := &model{alphabet: align.NUCLEOTIDS, policy: policy, bag: bag}
 	if len(rows) == 0 {
 		return m, false
 	}
@@ -230,7 +250,11 @@ func checkCLI(dir string, c cliCase) (o pbt.Outcome, err error) {
 	renamed := false
 	for k, cmd := range c.Cmds {
 		in := cli.TempFile(dir, ".fa", content)
-		m, readable := readModel(file, policy)
+		m, readable := readModelKind(file, policy, c.Unaligned)
+		if c.Unaligned && !cliUnaligned[cmd.Cmd] {
+			o.Class("cli-skipped-needs-alignment:%s", cmd.Cmd)
+			continue
+		}
 		n := len(m.rows)
 		l := m.length()
 		args := []string{}
@@ -499,6 +523,17 @@ func checkCLI(dir string, c cliCase) (o pbt.Outcome, err error) {
 				args = append(args, "--ignore-n")
 			}
 			cs := charSel{chars: "-", ignoreN: cmd.b(0)}
+			// --char: GAP or - (default) or one other character, --ignore-case for it (docs/commands/clean.md)
+			if ch := cmd.s(0); ch != "" {
+				args = append(args, "--char="+ch)
+				if ch != "GAP" && ch != "-" {
+					cs.chars = ch
+					if cmd.b(1) {
+						cs.ignoreCase = true
+						args = append(args, "--ignore-case")
+					}
+				}
+			}
 			var kept []row
 			zeroOfZero := false
 			for _, r := range out.rows {
@@ -516,6 +551,57 @@ func checkCLI(dir string, c cliCase) (o pbt.Outcome, err error) {
 				continue
 			}
 			out.rows = kept
+		case "identical":
+			// goalign identical -i a -c b prints true or false (Identical: same names and residues, any order)
+			if !readable || n == 0 {
+				continue
+			}
+			comp := append([]row(nil), m.rows...)
+			for i, j := 0, len(comp)-1; i < j; i, j = i+1, j-1 {
+				comp[i], comp[j] = comp[j], comp[i]
+			}
+			wantTrue := true
+			kk := mod(cmd.n(1), n)
+			switch mod(cmd.n(0), 4) {
+			case 1:
+				b := []byte(comp[kk].Seq)
+				pos := mod(cmd.n(2), len(b))
+				if b[pos] == 'A' {
+					b[pos] = 'C'
+				} else {
+					b[pos] = 'A'
+				}
+				comp[kk].Seq = string(b)
+				wantTrue = false
+			case 2:
+				comp[kk].Name += "z"
+				wantTrue = false
+			case 3:
+				if n > 1 {
+					comp = append(comp[:kk], comp[kk+1:]...)
+					wantTrue = false
+				}
+			}
+			cf := cli.TempFile(dir, ".fa", fastaOf(comp))
+			iargs := []string{"identical", "-i", in, "-c", cf}
+			if c.Policy != 0 {
+				iargs = append([]string{"--ignore-identical", strconv.Itoa(c.Policy)}, iargs...)
+			}
+			ir := cli.RunIn(dir, "", iargs...)
+			iwhat := fmt.Sprintf("command %d: goalign %s\n input: %s\n compared: %s", k, strings.Join(iargs, " "), showRows(m.rows), showRows(comp))
+			if ir.Exit != 0 {
+				return o, fmt.Errorf("%s: exit status %d, stderr %q", iwhat, ir.Exit, ir.Stderr)
+			}
+			if got := strings.TrimSpace(ir.Stdout); got != strconv.FormatBool(wantTrue) {
+				return o, fmt.Errorf("%s: prints %q, expected %v", iwhat, ir.Stdout, wantTrue)
+			}
+			steps++
+			o.Class("cli=identical")
+			o.Class("cli-identical=%v", wantTrue)
+			if renamed {
+				o.Class("cli-inv:rename>identical")
+			}
+			continue
 		case "append", "concat":
 			if len(cmd.Rows) == 0 {
 				continue
@@ -600,8 +686,44 @@ func checkCLI(dir string, c cliCase) (o pbt.Outcome, err error) {
 		if c.Policy != 0 || k%2 == 0 {
 			full = append(full, "--ignore-identical", strconv.Itoa(c.Policy))
 		}
+		if c.Unaligned {
+			at := 1
+			if args[0] == "trim" {
+				at = 2
+			}
+			args = append(append(append([]string{}, args[:at]...), "--unaligned"), args[at:]...)
+		}
+		stdin := ""
+		if c.Stdin {
+			nameFile := -1
+			for i := 0; i+1 < len(args); i++ {
+				if args[i] == "-f" {
+					nameFile = i + 1
+				}
+			}
+			if nameFile >= 0 {
+				// the name file of subset from standard input
+				b, rerr := os.ReadFile(args[nameFile])
+				if rerr != nil {
+					return o, fmt.Errorf("harness: %v", rerr)
+				}
+				stdin = string(b)
+				args[nameFile] = "-"
+				o.Class("cli-name-file-from-stdin")
+			} else {
+				// the alignment from standard input (the default of -i)
+				for i := 0; i+1 < len(args); i++ {
+					if args[i] == "-i" && args[i+1] == in {
+						args = append(append([]string{}, args[:i]...), args[i+2:]...)
+						stdin = content
+						o.Class("cli-alignment-from-stdin")
+						break
+					}
+				}
+			}
+		}
 		full = append(full, args...)
-		r := cli.RunIn(dir, "", full...)
+		r := cli.RunIn(dir, stdin, full...)
 		what := fmt.Sprintf("command %d: goalign %s\n input: %s", k, strings.Join(full, " "), showRows(file))
 		if r.TimedOut {
 			return o, fmt.Errorf("%s: no answer within the time limit", what)
@@ -726,6 +848,9 @@ func checkCLI(dir string, c cliCase) (o pbt.Outcome, err error) {
 	}
 	if c.Stale {
 		o.Class("cli-stale-output-files")
+	}
+	if c.Unaligned {
+		o.Class("cli-unaligned")
 	}
 	o.Class("cli-commands-run=%d", steps)
 	o.NonTrivial = steps >= 2 && renamed
